@@ -15,12 +15,14 @@ C = {
          "NOT covered: index/segment meta gob round trip, Open/Close sequencing, mmap vs plain FS equivalence."),
  "C03": ("write path of the log: file.append and datalog.writeRecord are append-only for every open file (no byte below the old length of any file changes, other files untouched, lengths only grow), the record lands at the returned offset of the current segment, DL-INV is preserved across rollover.",
          "NOT covered: crash invariants at the DB level (index update vs WAL order, lock file protocol), recovery replay; datalog.swapSegment is trusted (contract assumed, body not verified)."),
+ "C04": ("recovery's segment walk: recoveryIterator.next (every number of segments, every iteration: loop invariant + variant) keeps FILE-INV (cached file.size == length of the file behind the handle) for every segment it was given, including the one it truncates (this is the obligation that the pre-fix code of defect D2 fails), truncates only downwards and never below the header, returns ErrIterationDone only when every segment was consumed, and passes on only records the validating reader accepted; newSegmentIterator establishes the iterator invariant.",
+         "NOT covered: DB.recover (replay into the index, rebuilt segment metas, sealing of all but the newest segment), backupNonsegmentFiles/removeRecoveryBackupFiles, crashes during recovery itself, idempotence of recovery as a whole. Assumed of the caller: the segments are distinct files opened once (precondition recItInv)."),
  "C05": ("log-side steps used by compaction: removeSegment removes exactly the given table entry and leaves every other entry, writeRecord keeps all existing entries, trackDel only touches the meta of the slot's segment.",
          "NOT covered: DB.compact/promoteRecord/pickForCompaction, interleaving with writers, recovery during compaction."),
  "C06": ("SEALED-DURABLE invariant of the log: after datalog.sync returns nil every segment of the table is durable up to its length; writeRecord (including rollover) keeps every non-current segment durable; removeSegment requires the remaining segments to be durable.",
          "NOT covered: DB.Sync/Put sync modes, compaction syncing the copies before removal (defect D4 of DESIGN 6 is in DB.compact, not under contract, still present), index durability. datalog.swapSegment trusted."),
  "C08": ("the validating reader: for every file content and every offset segmentIterator.next returns a record iff the bytes at the offset are a complete record of the documented format with a matching CRC-32, returns exactly its key/value/type, advances by its size, and otherwise fails with ErrIterationDone/EOF/UnexpectedEOF/errCorrupted without advancing and without panicking; header.UnmarshalBinary/readHeader accept exactly the signature; encodeRecord produces what the reader accepts.",
-         "NOT covered: recoveryIterator.next's truncation and DB.recover's loop (only in C04's bounded claim where stated); that a flipped bit changes the CRC is the assumed error-detection property of CRC-32 (crc is uninterpreted)."),
+         "Also recoveryIterator.next: a segment is cut only at an offset where that reader rejects the record (obligation at(Truncate@1):cut-at-invalid), bytes below the new length are unchanged, later segments are still visited after a truncation. NOT covered: DB.recover's replay into the index; that a flipped bit changes the CRC is the assumed error-detection property of CRC-32 (crc is uninterpreted)."),
  "C14": ("encodeRecord returns a freshly allocated buffer holding copies of key and value (arguments are not retained); readKey/readKeyValue results hold exactly the stored bytes.",
          "NOT covered: that DB.Get/GetAppend/ItemIterator.Next copy out of FS memory before returning (DB layer not under contract), mmap remapping."),
  "C15": ("removeSegment: when it returns nil the table entry is nil, the handle is closed, and both <name> and <name>.pmt are gone from the directory; DL-INV still holds; datalog.sync succeeds (no error other than an I/O error) in every state satisfying DL-INV, including after the current segment was removed.",
@@ -30,10 +32,9 @@ C = {
  "C18": ("every encoder and decoder of the on-disk format against a fixed transcription of docs/design.md: 512-byte header (signature, version 2, zero padding) written by writeHeader/MarshalBinary and recognised by readHeader/UnmarshalBinary; record layout key size, type bit + value size, key, value, CRC32 in encodeRecord and segmentIterator.next; 512-byte bucket layout in bucket Marshal/UnmarshalBinary; bucketOffset.",
          "NOT covered: segment file naming, gob-encoded meta files, compatibility with directories written by the pinned version (needs executions, not contracts), murmur hash."),
  "C19": ("allocation in recovery's reader: the only make() in segmentIterator.next is bounded by the bytes left in the segment file for every claimed key/value length (obligation segmentIterator.next#alloc@1:record-buffer); work per call is loop-free.",
-         "NOT covered: number of iterations of DB.recover (termination measures of the recovery loops)."),
+         "recoveryIterator.next's loop has a proved variant (2*remaining segments + current one), so one call visits each segment at most once. NOT covered: number of iterations of DB.recover's own loop."),
 }
 NA = {
- "C04": "not claimed: recoveryIterator.next / DB.recover are not under contract yet (FILE-INV after the recovery truncation, DESIGN 5/C04). Defect D2 (stale file.size after truncation) was reproduced against the real code and repaired by a fix: commit; its regression history (TestVerifRegressD2) runs in the thorough tier of C08; no obligation covers it, so C04 is not claimed.",
  "C07": "contracts are per call and sequential: linearizability of concurrent histories is outside what function contracts decide (DESIGN 7); the lock-discipline premises that could be checked were not built.",
  "C09": "not claimed: needs the durability frontier at DB.Close (all files synced before the lock file is removed); DB.Close, index.close, writeGobFile are not under contract. Defect D5 of DESIGN 6 (Close syncs nothing) is documented there and is not covered by any check.",
  "C10": "data races, deadlocks and goroutine leaks are properties of schedules; function contracts cannot decide them (DESIGN 7). The sequential no-panic sweep exists only for the functions listed under the other properties.",
